@@ -62,9 +62,12 @@ class Slot:
             v = Var(f"s{tag}_{self.id}_{i}", map(ord, chars))
             s.add(v.domain_constraint())
             return v
-        if k in ("id", "fname"):
+        if k in ("id", "fname", "idnp"):
             vs = [mk(i, low0 if i == 0 else LOWD) for i in range(n)]
             self._exclude(s, vs, C_KEYWORDS + SPECIAL_NAMES)
+            if k == "idnp" and n >= 2:
+                # an identifier WITHOUT one of the Norm's prefixes (its naming class): not s_ u_ e_ t_ g_
+                s.add(z3.Not(z3.And(vs[1].z == ord("_"), z3.Or([vs[0].z == ord(c) for c in "suetg"]))))
         elif k.startswith("pid:"):          # prefixed identifier  g_xxx / t_xxx / s_xxx ...
             pre = k[4:]
             vs = list(pre) + [mk(i, LOWD) for i in range(len(pre), n)]
@@ -688,13 +691,14 @@ class Gen:
             kind = r.choice(["struct", "struct", "union", "enum"])
             tag = self.pid({"struct": "s_", "union": "u_", "enum": "e_"}[kind])
             tname = self.pid("t_")
-            lines.append(Line(["typedef " + kind + " ", tag], "utype_open"))
+            plain = r.random() < 0.35          # a plain (non-typedef) block declaration: `struct s_x` / `{` ... `};`
+            lines.append(Line([("" if plain else "typedef ") + kind + " ", tag], "utype_open", plain=plain, tag=tag, ukind=kind))
             lines.append(Line(["{"], "utype_lbrace"))
             if kind == "enum":
                 n = r.randint(1, 4)
                 for i in range(n):
                     lines.append(Line(["\t", self.macro()] + ([","] if i < n - 1 else []), "enumerator", 1))
-                lines.append(Line(["}\t", tname, ";"], "utype_close"))
+                lines.append(Line(["};"] if plain else ["}\t", tname, ";"], "utype_close"))
             else:
                 n = r.randint(1, 4)
                 rows = []
@@ -713,9 +717,10 @@ class Gen:
                     lines.append(Line(parts, "member", 1))
                 col = width("\t" + rows[0][0] + "\t" * tabs[0]) + 1
                 ntab = (col - 1) // 4 - 0
-                lines.append(Line(["}", "\t" * max(1, ntab), tname, ";"], "utype_close"))
+                lines.append(Line(["};"] if plain else ["}", "\t" * max(1, ntab), tname, ";"], "utype_close"))
             lines.append(Line([""], "blank"))
-            user_types.append(tname.default)
+            if not plain:
+                user_types.append(tname.default)
         nproto = r.randint(1, 4)
         rows = []
         for _ in range(nproto):
